@@ -1248,6 +1248,19 @@ def _tick_cases(ppqs, mpqs, kmax, all_forms):
     return gen
 
 
+def _tick_cases_negative(ppqs, mpqs, kmin):
+    def gen():
+        i = 0
+        for ppq in ppqs:
+            for mpq in mpqs:
+                for lo in range(-kmin, 0, BLOCK):
+                    hi = min(lo + BLOCK, 0)
+                    pf = PFORMS[i % 3]
+                    i += 1
+                    yield dict(k="ticks", ppq=ppq, mpq=mpq, lo=lo, hi=hi, pform=pf)
+    return gen
+
+
 def _tick_more(kmax):
     core = set((p, q) for p in PPQ_CORE for q in MPQ_CORE)
     pairs = [(p, q) for p in PPQ_CORE + PPQ_MORE for q in MPQ_CORE + MPQ_MORE if (p, q) not in core]
@@ -1286,6 +1299,9 @@ def spaces(tier, seed):
         Space("intervals", _interval_cases, True, "number 1..14 x quality {dd,d,m,M,P,A,AA,X,''} x direction {up,down,sideways,default}"),
         Space("tables", [dict(k="table", table=t) for t in TABLE_CHECKS], True, "15 agreement checks between the constant tables"),
     ]
+    sp.append(Space("ticks-negative", _tick_cases_negative(PPQ_CORE + [1000000 // 1000], MPQ_CORE + [1000000], 1000 if tier == "quick" else 5000), True,
+                    "negative times t=k/1000 s, k=-%d..-1 x ppq {1,96,480,960,1000} x mpq {250000,500000,600000,1000000}: the same clauses "
+                    "(rounding is to nearest for negative values too; scalar and array branches agree)" % (1000 if tier == "quick" else 5000)))
     if tier == "quick":
         sp.append(Space("ticks-core", _tick_cases(PPQ_CORE, MPQ_CORE, 10000, False), True,
                         "t=k/1000 s, k=0..9999 (blocks of 250) x ppq {1,96,480,960} x mpq {250000,500000,600000}; parameter form "
